@@ -635,7 +635,7 @@ open Ibx.Model.Smtp Ibx.Lemmas.Smtp Ibx.Lemmas.SmtpLoop in
 theorem phase_rcpts_ok (e : Smtp.Env) (b : Option Nat) (w : Bytes) (ph : Phase) (hph : ph ∈ runPhases e b w) :
     ∀ r ∈ ph.sess.rcpts, Addr.newRecipient e.ip e.naming r.addr = some r := by
   obtain ⟨s1, hr, _, _, hsess, _⟩ := phases_reach e _ _ _ _ ph hph
-  have h0 : RcptsOk e (start b) := by intro r hr; simp [start, init] at hr
+  have h0 : RcptsOk e (start e b) := by intro r hr; simp [start, init, initFor] at hr
   have := rcptsOk_reach e _ _ _ _ h0 hr
   rw [hsess]
   exact this
